@@ -39,11 +39,11 @@ def scenarios(tier):
 
 
 def _files(W, tmp, t_first, uvals):
-    """grid + forcing file with frames at steps -1, 1, 2, 5 (relative to t_first); u depends on level and frame"""
+    """grid + forcing file with frames at steps -1, 1, 2, 6 (relative to t_first); u depends on level and frame"""
     ones = [[1] * L for _ in range(M)]
     # sloping bottom: the level depths differ from cell to cell (a particle handed another cell's column gets other levels)
     gs = romsfile.grid_vars(L, M, N, h=[[60 + 10 * i + 7 * j for i in range(L)] for j in range(M)], mask=ones, pm=[[W.frac(1, 800)] * L for _ in range(M)], pn=[[W.frac(1, 800)] * L for _ in range(M)])
-    frames = [-1, 1, 2, 5]  # unevenly spaced
+    frames = [-1, 1, 2, 6]  # unevenly spaced
     u = [[[[uvals[(f, k)] for i in range(L - 1)] for j in range(M)] for k in range(N)] for f in range(len(frames))]
     v = [[[[0 for i in range(L)] for j in range(M - 1)] for k in range(N)] for f in range(len(frames))]
     temp = [[[[uvals[(f, k)] * 10 for i in range(L)] for j in range(M)] for k in range(N)] for f in range(len(frames))]
